@@ -34,7 +34,7 @@ META = {
             "both call paths, in every history every native call enters an existing symbol of an existing library through its registered type. The tie runs generated `use foreign.echo` programs on the real binary against an echo library "
             "compiled by the check: recorded 64-bit patterns = Cb-visible results = extracted model = property reading, for every supported signature x boundary "
             "values and for all 474 unsupported signatures of arity 0-4 over {int,long,double} on both paths, float/pointer declarations, missing library, missing symbol, arity mismatch.",
-    "note": "Trusted: Coq kernel incl. vm_compute (table checks, refutation witnesses), no axioms (Print Assumptions: closed); the 150-line regex translator "
+    "note": "Trusted: Coq kernel incl. vm_compute (table checks), no axioms (Print Assumptions: closed); the 150-line regex translator "
             "(prints what it recognised into the evidence; unrecognised shape -> stale table, correspondence only); extraction ExtrOcamlBasic+ExtrOcamlString; "
             "the hand-written model of registration and of the call sites is tied by differential testing only; that a correctly typed call passes bits "
             "unchanged is the platform ABI (x86-64 SysV, gcc) and is only tested; NaN payloads excluded (the evaluator quiets signalling NaNs).",
